@@ -108,7 +108,7 @@ class BirthDeath(System):
             a = env.get_random_agent()
             env.remove_agent(a.id)
             m.trace.append(("death", a.id))
-        if m.random.random() < 0.4 and len(env) < 14:
+        if m.random.random() < 0.4 and len(env) < max(14, int(getattr(m, "pop_cap", 14))):
             m.births += 1
             a = Agent(f"n{m.births}", m, tag=m.random.choice([0, 1, 2]))
             if m.random.random() < 0.7:
@@ -181,7 +181,7 @@ class TrajModel(Model):
             self.set_environment(GridWorld(self, 6, 4, wrap_env=bool(cfg.get("wrap"))))
         elif world == "space":
             self.set_environment(SpaceWorld(self, 9.5, 7.25, wrap_env=bool(cfg.get("wrap"))))
-        for i in range(max(3, min(int(cfg.get("pop", 5)), 12))):
+        for i in range(max(3, min(int(cfg.get("pop", 5)), 200))):
             a = Agent(f"a{i}", self, tag=i % 3)
             if i % 4 != 3:
                 a.add_component(Val(a, self, i))
@@ -270,6 +270,8 @@ def _run_case(case):
     if ref != again:
         raise Violation("same-seed-differs", _diff("two undisturbed runs with the same seed", ref, again, cfg, seed))
     labels = {cfg.get("world", "plain")}
+    if int(cfg.get("pop", 5)) > 64:
+        labels.add("population>64")
     pv = [int(v) for v in case.get("perturb") or [1]]
     a = run_plain(seed, cfg, steps, perturb=pv)
     if [e for e in a] != ref:
@@ -351,6 +353,11 @@ def strategy(tier):
     cfg = st.fixed_dictionaries({"world": st.sampled_from(["plain", "grid", "space"]), "wrap": st.booleans(), "pop": st.integers(3, 12),
                                  "systems": kinds, "steps": st.integers(5, 15),
                                  "complete_at": st.sampled_from([None, None, None, 2, 4, 7])})
+    from vf.fixtures import near_pow2
+    crowd = st.fixed_dictionaries({"world": st.sampled_from(["plain", "grid", "space"]), "wrap": st.booleans(), "pop": near_pow2(33, 130),
+                                   "systems": kinds.map(lambda k: ["picker", "shuffler"] + k[:2]), "steps": st.integers(3, 6),
+                                   "complete_at": st.sampled_from([None, None, 2])})
+    cfg = wone_of(*([cfg] * 11 + [crowd]))
     single = st.fixed_dictionaries({"kind": st.just("single"), "seed": seeds, "cfg": cfg,
                                     "perturb": st.lists(st.integers(-10 ** 9, 10 ** 9), min_size=1, max_size=4),
                                     "interleave": st.lists(seeds, max_size=3),
